@@ -208,7 +208,7 @@ pub fn check(c: &Case, ctx: &mut Ctx) -> Result<(), Failure> {
                                 Some(0.0)
                             } else {
                                 let mr = mfi_ref_ex(&hb, n, 1e-9, false);
-                                if hb[t - 2].tp() != bar.tp() {
+                                if crate::refs::may_flow(&hb[t - 2], bar) {
                                     flowbig = flowbig.max((bar.tp() * bar.v).abs());
                                 }
                                 let den = mr.pmf.add(mr.nmf).to_f64();
